@@ -54,6 +54,7 @@ SPECS = {
     "rxstar": '<start> ::= (r"a+" | "b")* "x"\n',
     "rxopt": '<start> ::= "x" r"[0-9]?" "y"\n',
     "rxuni": '<start> ::= r"[a-z\xe9]{3}" "!"\n',
+    "rxnull": '<start> ::= r"a*"+ "b"\n',  # a regex that matches the empty string, under +
     "rxgen": '<start> ::= rb"[\\x7f-\\x81]{1,2}" b"!" r"[ab]?"\n',
     "nullseq": '<start> ::= ("a"? "c")* "b"\n',
     "nullplus": '<start> ::= ("a"?)+ "b"\n',
